@@ -346,13 +346,7 @@ CaseResult run_ef(const RunCtx &ctx, TapeReader &t, unsigned size_hint) {
     o.ef_bimodal = ctx.mode != "mem";
     std::vector<K> keys = gen_keys<K>(t, o, meta);
 
-    // KNOWN FINDING KF-3 (excluded by construction, counted): 64-bit keys with first key 0 and last key max-1 make the rebased closing
-    // segment key equal to the type's maximum; sd_vector's universe (last+1) wraps to 0 for 64-bit keys.
-    bool excluded = false;
-    if (VF_KF3_EXCLUDE && !ctx.x("xkeys") && sizeof(K) == 8 && keys.front() == 0 && keys.back() == std::numeric_limits<K>::max() - 1) {
-        for (auto &k: keys) k = std::max<K>(k, 1); // shift the first key(s) to 1: keeps the array sorted
-        excluded = true;
-    }
+    const bool excluded = false; // KF-3 (64-bit keys, first key 0, last key max-1) was repaired; nothing is excluded any more
 
     std::ostringstream head;
     head << "EliasFanoPGMIndex<" << type_name<K>() << "," << Eps << "," << type_name<F>() << ">";
